@@ -10,6 +10,7 @@ import (
 	"encoding/json"
 	"fmt"
 	"go/token"
+	"go/types"
 	"os"
 	"path/filepath"
 	"strings"
@@ -175,6 +176,56 @@ func (c *Ctx) genericLints() {
 			}
 		})
 	}
+	// (3) a symbol of one interpreter stored in process-global state: symbol numbers are per symbol table, so
+	// a second interpreter (other builtins, other order of interning) reads the first one's number under its own table
+	symT := c.named("SexpSymbol")
+	nGlob := 0
+	if symT != nil {
+		isSymPtr := func(t types.Type) bool {
+			p, ok := t.(*types.Pointer)
+			if !ok {
+				return false
+			}
+			n, ok := p.Elem().(*types.Named)
+			return ok && n == symT
+		}
+		for _, f := range scope {
+			if f.Name() == "init" || strings.HasPrefix(f.Name(), "init#") {
+				continue
+			}
+			published := map[ssa.Value]bool{}
+			eachInstr(f, func(b *ssa.BasicBlock, i int, in ssa.Instruction) {
+				if st, ok := in.(*ssa.Store); ok {
+					if _, isG := st.Addr.(*ssa.Global); isG {
+						published[st.Val] = true
+						nGlob++
+						if isSymPtr(st.Val.Type()) && !isNilConst(st.Val) {
+							c.bad(rule, fnName(f), "interpreter symbol stored in a package-level variable", st.Pos(),
+								"a *SexpSymbol is stored in process-global state: its number belongs to one interpreter's symbol table, and every other interpreter of the process reads it under its own table")
+						}
+					}
+				}
+			})
+			if len(published) == 0 {
+				continue
+			}
+			eachInstr(f, func(b *ssa.BasicBlock, i int, in ssa.Instruction) {
+				st, ok := in.(*ssa.Store)
+				if !ok {
+					return
+				}
+				fa, ok := st.Addr.(*ssa.FieldAddr)
+				if !ok || !published[fa.X] {
+					return
+				}
+				if isSymPtr(st.Val.Type()) && !isNilConst(st.Val) {
+					c.bad(rule, fnName(f), "interpreter symbol stored in a package-level object", st.Pos(),
+						"a *SexpSymbol is stored in an object that is published through a package-level variable: its number belongs to one interpreter's symbol table, and every other interpreter of the process reads it under its own table (the head it denotes there is some other symbol)")
+				}
+			})
+		}
+	}
+	_ = nGlob
 	c.ok(rule, "anchored files", "aliasing patterns", token.NoPos,
 		fmt.Sprintf("%d functions of %d anchored files: %d appends inside loops and %d retained pre-loop allocations examined", len(scope), len(files), nApp, nHoist)).Trivial = true
 }
